@@ -147,7 +147,12 @@ func TestC09Authenticity(t *testing.T) {
 				to := actors[rapid.IntRange(0, len(actors)-1).Draw(t, "to")]
 				// the method varies: authentication must not depend on what the transaction asks for
 				var method transaction.MethodName = staking.MethodTransfer
-				var body any = &staking.Transfer{To: to.Addr, Amount: quantityOf(uint64(rapid.IntRange(0, 50).Draw(t, "amount")))}
+				amount := uint64(rapid.IntRange(0, 50).Draw(t, "amount"))
+				if bal := acct.General.Balance.ToBigInt(); bal.IsUint64() && bal.Uint64() < 1<<62 && rapid.IntRange(0, 3).Draw(t, "overdraw") == 0 {
+					// passes authentication, fails in execution (insufficient balance): the nonce still advances, the fee is still paid
+					amount = bal.Uint64() + 1
+				}
+				var body any = &staking.Transfer{To: to.Addr, Amount: quantityOf(amount)}
 				switch fk := rapid.SampledFrom([]string{"transfer", "transfer", "escrow", "burn", "register-node", "register-node", "register-entity"}).Draw(t, "fkind"); {
 				case fk == "escrow":
 					method, body = staking.MethodAddEscrow, &staking.Escrow{Account: to.Addr, Amount: quantityOf(uint64(rapid.IntRange(0, 50).Draw(t, "amount2")))}
@@ -172,7 +177,11 @@ func TestC09Authenticity(t *testing.T) {
 					method, body = registry.MethodRegisterEntity, se
 				}
 				rec.Label("f-method:" + string(method))
-				tx := transaction.NewTransaction(acct.General.Nonce, &transaction.Fee{Gas: 200000}, method, body)
+				fee := &transaction.Fee{Gas: 200000}
+				if bal := acct.General.Balance.ToBigInt(); bal.IsUint64() && bal.Uint64() > sim.W.Spec.MinTransact+5 && rapid.Bool().Draw(t, "ffee") {
+					fee.Amount = quantityOf(uint64(rapid.IntRange(1, 5).Draw(t, "ffeeAmt")))
+				}
+				tx := transaction.NewTransaction(acct.General.Nonce, fee, method, body)
 				blob := cbor.Marshal(tx)
 				goodSig := ed25519.Sign(rawKey(a.Signer), chain.TxDigest(chainCtx, blob))
 				f := envelope(blob, a.Signer.Public(), goodSig)
